@@ -4,7 +4,8 @@ From BW Require Import Context.
 From BWGen Require Import ExtTable.
 From BWP Require Import TextFacts Suffix_proofs Context_proofs Diff_proofs.
 From BW Require Import Main.
-From BWP Require Import Main_proofs.
+From BWP Require Import Main_proofs MainCompose_proofs Scope_proofs.
+From BWGen Require Import ExtTable.
 
 (* Every file that contributes blocks is in scope: scanned (exists, matches a positional glob, not ignored) or named in the diff and not ignored. *)
 Theorem C15_context_files_in_scope : forall ext_map fs scan changes fc,
@@ -101,3 +102,44 @@ Theorem C15_ignore_wins_refuted :
                 In fc (cr_ctx cr) /\ fc_path fc = T "a.py" /\ mf_ign_pre f12_file = true.
 Proof. exact ignore_wins_refuted. Qed.
 Print Assumptions C15_ignore_wins_refuted.
+
+(* Through main, list: every listed file is walked, allowed (or no glob was typed interactively) and not ignored, or is named by the diff and not ignored. *)
+Theorem C15_listed_file_in_scope : forall a p ms tb cd cr fc,
+  plan_of a = Ok p -> main_model a ms tb cd = MList cr -> In fc (cr_ctx cr) ->
+  exists ch, model_changes (main_case a p ms tb cd) = Ok ch /\
+  exists m, In m ms /\ fc_path fc = rf_path (mf_file m) /\
+    ((pl_scan p = true /\ rf_exists (mf_file m) = true /\
+      (rf_allow (mf_file m) = true \/ pl_star p = true) /\
+      (if ca_ign_post a =? 0 then mf_ign_pre m else mf_ign_post m) = false)
+     \/
+     (In (rf_path (mf_file m)) (map fst ch) /\
+      (if ca_ign_post a =? 0 then mf_ign_pre m else mf_ign_post m) = false)).
+Proof. exact main_listed_file_in_scope. Qed.
+Print Assumptions C15_listed_file_in_scope.
+
+(* The same for every file a diagnostic names. *)
+Theorem C15_diagnosed_file_in_scope : forall a p ms tb cd v path d,
+  plan_of a = Ok p -> main_model a ms tb cd = MRun v -> In (path, d) (vr_diags v) ->
+  exists ch, model_changes (main_case a p ms tb cd) = Ok ch /\
+  exists m, In m ms /\ path = rf_path (mf_file m) /\
+    ((pl_scan p = true /\ rf_exists (mf_file m) = true /\
+      (rf_allow (mf_file m) = true \/ pl_star p = true) /\
+      (if ca_ign_post a =? 0 then mf_ign_pre m else mf_ign_post m) = false)
+     \/
+     (In (rf_path (mf_file m)) (map fst ch) /\
+      (if ca_ign_post a =? 0 then mf_ign_pre m else mf_ign_post m) = false)).
+Proof. exact main_diag_file_in_scope. Qed.
+Print Assumptions C15_diagnosed_file_in_scope.
+
+(* Conversely a scanned file with a grammar that reads and parses to at least one block is in the context with all its blocks. *)
+Theorem C15_scanned_file_contributes : forall a p ms tb cd m ch bs,
+  In m ms -> model_changes (main_case a p ms tb cd) = Ok ch ->
+  pl_scan p = true -> scanned (seen_file a p m) = true ->
+  grammar_of ext_table (pl_ext p) (rf_path (mf_file m)) <> None ->
+  rf_readable (mf_file m) = true ->
+  parse_file (rf_text (mf_file m)) (rf_spans (mf_file m)) = Ok bs -> bs <> [] ->
+  In {| fc_path := rf_path (mf_file m); fc_text := rf_text (mf_file m);
+        fc_blocks := map (mk_bctx (match changes_for (rf_path (mf_file m)) ch with Some l => l | None => [] end)) bs |}
+     (cr_ctx (model_context (main_case a p ms tb cd))).
+Proof. exact main_scanned_file_in_context. Qed.
+Print Assumptions C15_scanned_file_contributes.
